@@ -3,4 +3,158 @@ import SigV4.Spec.ValidateSpec
 
 namespace SigV4
 
+theorem ALLOWED_MISMATCH_val : ALLOWED_MISMATCH = 900000000000 := by decide
+theorem CHRONO_MIN_val : CHRONO_MIN = -8334601228800000000000 := by decide
+theorem CHRONO_MAX_val : CHRONO_MAX = 8210266876799999999999 := by decide
+
+theorem minTs_of_representable (now : Int) (hr : nowRepresentable now) :
+    minTs now = now - ALLOWED_MISMATCH := by
+  unfold nowRepresentable at hr
+  unfold minTs
+  rw [if_neg (by omega)]
+
+theorem maxTs_of_representable (now : Int) (hr : nowRepresentable now) :
+    maxTs now = now + ALLOWED_MISMATCH := by
+  unfold nowRepresentable at hr
+  unfold maxTs
+  rw [if_neg (by omega)]
+
+theorem scopeCheck_term : scopeCheck.AWS4_REQUEST_TERM = b!"aws4_request" := rfl
+
+/-- Inside the window `prevalidate` is the scope rule. -/
+theorem prevalidate_eq_scopeCheck_of_inWindow (a : Authenticator) (region service : Bytes) (now : Int)
+    (hr : nowRepresentable now) (h : inWindow a.timestamp now) :
+    prevalidate a region service now = scopeCheck a region service := by
+  unfold inWindow at h
+  unfold prevalidate scopeCheck
+  rw [minTs_of_representable now hr, maxTs_of_representable now hr]
+  rw [if_neg (by omega), if_neg (by omega)]
+  rfl
+
+theorem prevalidate_err_of_not_inWindow (a : Authenticator) (region service : Bytes) (now : Int)
+    (hr : nowRepresentable now) (h : ¬ inWindow a.timestamp now) :
+    prevalidate a region service now = .err .SignatureDoesNotMatch := by
+  unfold inWindow at h
+  unfold prevalidate
+  rw [minTs_of_representable now hr, maxTs_of_representable now hr]
+  by_cases h1 : a.timestamp < now - ALLOWED_MISMATCH
+  · rw [if_pos h1]
+  · rw [if_neg h1, if_pos (by omega)]
+
+/-- `prevalidate` succeeding implies being in the window (representable `now`). -/
+theorem inWindow_of_prevalidate_ok (a : Authenticator) (region service : Bytes) (now : Int)
+    (hr : nowRepresentable now) (h : prevalidate a region service now = .ok ()) :
+    inWindow a.timestamp now := by
+  by_cases hw : inWindow a.timestamp now
+  · exact hw
+  · rw [prevalidate_err_of_not_inWindow a region service now hr hw] at h
+    cases h
+
+/-! ### Structure of `validate` -/
+
+/-- `authOf` succeeding exposes the two stages. -/
+theorem authOf_ok {H : Bytes → Bytes} {cfg : Config} {req : Request} {a : Authenticator}
+    (h : authOf H cfg req = .ok a) :
+    ∃ fp, fromRequestParts H cfg.opts cfg.other req = .ok fp ∧
+      getAuthenticator H cfg.reqs fp.creq = .ok a := by
+  unfold authOf at h
+  split at h
+  · next fp hfp => exact ⟨fp, hfp, h⟩
+  · cases h
+  · cases h
+
+/-- `validate` in terms of `validateSignature` once the authenticator is known. -/
+theorem validate_of_authOf_ok {σ : Type} {H : Bytes → Bytes} {cfg : Config} (P : Provider σ) (s : σ)
+    {req : Request} {a : Authenticator} (h : authOf H cfg req = .ok a) :
+    (validate H cfg P s req).calls = (validateSignature H P s a cfg.region cfg.service cfg.now).calls ∧
+    (validate H cfg P s req).state = (validateSignature H P s a cfg.region cfg.service cfg.now).state ∧
+    (∀ k, (validateSignature H P s a cfg.region cfg.service cfg.now).out = .err k →
+        (validate H cfg P s req).out = .err k) ∧
+    (∀ p, (validateSignature H P s a cfg.region cfg.service cfg.now).out = .panic p →
+        (validate H cfg P s req).out = .panic p) ∧
+    (∀ r, (validate H cfg P s req).out = .ok r →
+        ∃ resp, (validateSignature H P s a cfg.region cfg.service cfg.now).out = .ok resp) := by
+  obtain ⟨fp, hfp, hga⟩ := authOf_ok h
+  unfold validate
+  simp only [hfp, hga]
+  cases hv : (validateSignature H P s a cfg.region cfg.service cfg.now).out <;> simp
+
+/-- If `validate` is not stopped in the first two stages, there is an authenticator. -/
+theorem authOf_ok_of_validate {σ : Type} {H : Bytes → Bytes} {cfg : Config} (P : Provider σ) (s : σ)
+    {req : Request}
+    (h : (∃ r, (validate H cfg P s req).out = .ok r) ∨ (validate H cfg P s req).calls ≠ []) :
+    ∃ a, authOf H cfg req = .ok a := by
+  unfold validate at h
+  unfold authOf
+  cases hfp : fromRequestParts H cfg.opts cfg.other req with
+  | err k => simp [hfp] at h
+  | panic p => simp [hfp] at h
+  | ok fp =>
+    simp only [hfp] at h ⊢
+    cases hga : getAuthenticator H cfg.reqs fp.creq with
+    | err k => simp [hga] at h
+    | panic p => simp [hga] at h
+    | ok a => exact ⟨a, rfl⟩
+
+/-- When `prevalidate` fails, `validateSignature` stops there. -/
+theorem validateSignature_of_prevalidate_err {σ : Type} (H : Bytes → Bytes) (P : Provider σ) (s : σ)
+    (a : Authenticator) (region service : Bytes) (now : Int) (k : ErrKind)
+    (h : prevalidate a region service now = .err k) :
+    validateSignature H P s a region service now = { out := .err k, state := s, calls := [] } := by
+  unfold validateSignature
+  simp only [h]
+
+/-- `prevalidate` never panics. -/
+theorem prevalidate_not_panic (a : Authenticator) (region service : Bytes) (now : Int) (p : String) :
+    prevalidate a region service now ≠ .panic p := by
+  unfold prevalidate
+  repeat' split
+  all_goals simp
+
+/-- A successful `validateSignature`, or one that made provider calls, passed `prevalidate`. -/
+theorem prevalidate_ok_of_validateSignature {σ : Type} (H : Bytes → Bytes) (P : Provider σ) (s : σ)
+    (a : Authenticator) (region service : Bytes) (now : Int)
+    (h : (∃ resp, (validateSignature H P s a region service now).out = .ok resp) ∨
+         (validateSignature H P s a region service now).calls ≠ []) :
+    prevalidate a region service now = .ok () := by
+  cases hp : prevalidate a region service now with
+  | ok u => rfl
+  | err k => rw [validateSignature_of_prevalidate_err H P s a region service now k hp] at h; simp at h
+  | panic p => exact absurd hp (prevalidate_not_panic a region service now p)
+
+/-! ### `C04.freshness_depends_only_on_instant` as stated is false; refutation and a corrected form -/
+
+/-- Machine-checked refutation of the statement of `C04.freshness_depends_only_on_instant`: two
+authenticators with the same (stale) instant but different credentials. -/
+theorem freshness_depends_only_on_instant_refuted :
+    ¬ (∀ (a a' : Authenticator) (region service : Bytes) (now : Int),
+        nowRepresentable now → a.timestamp = a'.timestamp →
+        ((prevalidate a region service now = scopeCheck a region service) ↔
+         (prevalidate a' region service now = scopeCheck a' region service))) := by
+  intro h
+  have := h
+    { creqSha := [], credential := b!"AKID/20150830/us-east-1x/iam/aws4_request", sessionToken := none,
+      signature := [], timestamp := 1440938160000000000 }
+    { creqSha := [], credential := b!"AKID/20150830/us-east-1/iam/aws4_request", sessionToken := none,
+      signature := [], timestamp := 1440938160000000000 }
+    b!"us-east-1" b!"iam" 0 (by decide) rfl
+  revert this
+  decide
+
+/-- Corrected form: with the same instant, either both authenticators are judged by the scope rule
+alone, or both are refused as a signature mismatch — whatever their other fields. -/
+theorem freshness_verdict_depends_only_on_instant (a a' : Authenticator) (region service : Bytes)
+    (now : Int) (hr : nowRepresentable now) (ht : a.timestamp = a'.timestamp) :
+    (prevalidate a region service now = scopeCheck a region service ∧
+      prevalidate a' region service now = scopeCheck a' region service) ∨
+    (prevalidate a region service now = .err .SignatureDoesNotMatch ∧
+      prevalidate a' region service now = .err .SignatureDoesNotMatch) := by
+  by_cases hw : inWindow a.timestamp now
+  · have hw' : inWindow a'.timestamp now := ht ▸ hw
+    exact Or.inl ⟨prevalidate_eq_scopeCheck_of_inWindow a region service now hr hw,
+      prevalidate_eq_scopeCheck_of_inWindow a' region service now hr hw'⟩
+  · have hw' : ¬ inWindow a'.timestamp now := ht ▸ hw
+    exact Or.inr ⟨prevalidate_err_of_not_inWindow a region service now hr hw,
+      prevalidate_err_of_not_inWindow a' region service now hr hw'⟩
+
 end SigV4
